@@ -164,6 +164,7 @@ func checkC10(w *World, r *Report) {
 	checkParsedNodesNotFiltered(w, r)
 	checkPrintWritesWholeValue(w, r)
 	checkParseReturnsRoot(w, r)
+	checkTemplatesNotJudgedAtLoad(w, r)
 	checkResolvesThroughLoad(w, r, "R10.5", []string{"ExtendsNode"}, "a parent remembered from an earlier render is used although the parent name is an expression (or the engine would reload it): the child is laid out in the wrong parent")
 
 	// ---- R10.2
@@ -1420,4 +1421,58 @@ func checkParseReturnsRoot(w *World, r *Report) {
 		}
 	})
 	r.floor("successful returns of Parser.Parse", n, 1)
+}
+
+// checkTemplatesNotJudgedAtLoad — R10.15: whether a template loads does not depend on what it
+// extends.  In every function that parses a source (calls Parser.Parse), no return of a non-nil
+// error is control dependent on a value computed from the parsed tree: a load-time verdict on the
+// extends tag ("extends itself", "parent missing") has to resolve names the way the renderer
+// does — relative to the template the render started with, through every loader — and refuses
+// chains that render perfectly well (`admin/layout.twig` extending `layout.twig`).
+func checkTemplatesNotJudgedAtLoad(w *World, r *Report) {
+	parse := w.method("Parser", "Parse")
+	n := 0
+	for _, fn := range w.pkgFuncs() {
+		var tree ssa.Value
+		instrsOf(fn, func(in ssa.Instruction) {
+			if c, ok := in.(*ssa.Call); ok && calleeFunc(c) == parse && c.Referrers() != nil {
+				for _, ref := range *c.Referrers() {
+					if ex, ok := ref.(*ssa.Extract); ok && ex.Index == 0 {
+						tree = ex
+					}
+				}
+			}
+		})
+		if tree == nil {
+			continue
+		}
+		ei := errResultIndex(fn.Signature)
+		if ei < 0 {
+			continue
+		}
+		instrsOf(fn, func(in ssa.Instruction) {
+			ret, ok := in.(*ssa.Return)
+			if !ok {
+				return
+			}
+			res := retResults(ret)
+			if ei >= len(res) || isNilConst(res[ei]) {
+				return
+			}
+			n++
+			bad := ""
+			for _, c := range controllingConds(in) {
+				if valueDependsOn(c, tree, 8) {
+					bad = w.posOf(c.Pos())
+				}
+			}
+			construct := "a failing return does not depend on the parsed tree"
+			if bad == "" {
+				r.ok("R10.15", ssaName(fn), construct, w.posOf(ret.Pos()), "controlled by the parser's / loader's own errors only", true)
+			} else {
+				r.bad("R10.15", ssaName(fn), construct, w.posOf(ret.Pos()), "the template is refused because of what its tree contains (test at "+bad+"): a verdict on the extends tag at load time does not resolve parent names the way the renderer does, so chains that render correctly are rejected")
+			}
+		})
+	}
+	r.floor("failing returns of functions that parse a source", n, 3)
 }
